@@ -47,7 +47,7 @@ ASSUMPTIONS = ['cdef features outside verify() (extern "Python", typedef int... 
                'struct types are compared by layout (sizes/offsets), not by cname: in-line and out-of-line FFIs name "typedef struct tag {...} T" differently']
 BUDGET = {'quick': 32, 'thorough': 1600}
 MIN_PER_SHARD = 2
-TIME = {'quick': 20, 'thorough': 840}
+TIME = {'quick': 12, 'thorough': 840}
 CRASHY = True
 
 FEATURES = cdefgen.DEFAULT_FEATURES | frozenset(['const_novalue'])     # 'static const int K;' works in verify() too
